@@ -17,8 +17,22 @@ theorem majPixel_rolesOk (n cols : Nat) (vA vOut : C08.View) (k : Nat) :
   simp only [majPixel, List.mem_cons, List.mem_map] at hl
   rcases hl with rfl | ⟨a, _, rfl⟩ <;> simp [Role.ok]
 
+theorem locPixel_rolesOk (isMin : Bool) (vA vOut : C08.View) (nb : List (List Int)) (k : Nat) :
+    (locPixel isMin vA vOut nb k).rolesOk (2, 2) = true := by
+  rw [rolesOk_iff]
+  refine ⟨by simp [locPixel], ?_⟩
+  intro l hl
+  simp only [locPixel, List.mem_cons, List.mem_map] at hl
+  rcases hl with rfl | rfl | ⟨a, _, rfl⟩ <;> simp [Role.ok]
+
 theorem kernel3_rolesOk (k : Kernel3) : ∀ r ∈ k.raw, r.rolesOk k.arity = true := by
   cases k with
+  | locminmax isMin vA vOut vBc bc =>
+    intro r hr
+    simp only [Kernel3.raw, locminmaxRaw, List.mem_append, List.mem_map] at hr
+    rcases hr with h | ⟨k, _, rfl⟩
+    · exact filterCopy_rolesOk 1 vBc (2, 2) (by simp) (by simp) r h
+    · exact locPixel_rolesOk _ _ _ _ _
   | majority n vA vOut =>
     intro r hr
     simp only [Kernel3.raw, majorityRaw] at hr
@@ -131,5 +145,92 @@ theorem majority_solo_value (kcs : List KCall) (t : Nat) (n rows cols : Nat) (vA
     congr 1
     simp only [List.map_flatMap, List.map_map, Function.comp_def, hreadA]
   rw [hcount]
+
+/-- **value tie: locmin_max** — the solo run leaves `1` in the result cell of pixel `k` iff `C14.locAt` holds there -/
+theorem locminmax_solo_value (kcs : List KCall) (t : Nat) (isMin : Bool) (vA vOut vBc : C08.View) (bc : Array Int)
+    (aA aBc aOut aFd : Nat)
+    (hk : kcs[t]? = some ((Kernel3.locminmax isMin vA vOut vBc bc).call ⟨[aA, aBc], [aOut, aFd]⟩))
+    (hne1 : aA ≠ aOut) (hne2 : aA ≠ aFd) (hne3 : aOut ≠ aFd)
+    (A : Img Int) (hshape : A.shape = vA.shape) (hpos : ∀ d ∈ vA.shape, 0 < d) (m : Mem)
+    (hA : ∀ q q', fixPos .nearest vA.shape q = some q' →
+        m ((KLoc.mk aA (vA.addr (q'.map Int.toNat))).toLoc (kcs.map (·.call))) = A.getD q' 0)
+    (hC : ∀ k, k < shapeSize vA.shape →
+        m ((KLoc.mk aA (iterAddr vA k)).toLoc (kcs.map (·.call))) = A.getD (unravelI vA.shape k) 0)
+    (hZ : ∀ a, m ((KLoc.mk aOut a).toLoc (kcs.map (·.call))) = 0)
+    (hinj : ∀ k k', k < shapeSize vA.shape → k' < shapeSize vA.shape →
+        iterAddr vOut k = iterAddr vOut k' → k = k')
+    (k : Nat) (hkn : k < shapeSize vA.shape) :
+    solo (compile kcs) t m ((KLoc.mk aOut (iterAddr vOut k)).toLoc (kcs.map (·.call))) =
+      if C14.locAt isMin A (C14.neighbours vBc.shape bc) (unravelI vA.shape k) then 1 else 0 := by
+  let c : Call := ⟨[aA, aBc], [aOut, aFd]⟩
+  have hcne : c.outputs ≠ [] := by simp [c]
+  let calls := kcs.map (·.call)
+  let nb := C14.neighbours vBc.shape bc
+  let G : Nat → Step := fun k => (mkStep c (locPixel isMin vA vOut nb k)).compile calls
+  have hprog := compile_gather kcs t c (filterCopyRaw 1 vBc) (locPixel isMin vA vOut nb) (shapeSize vA.shape) hk
+  have hdst : ∀ k, (G k).dst = (KLoc.mk aOut (iterAddr vOut k)).toLoc calls := fun k => rfl
+  have hGinj : ∀ a b, a < shapeSize vA.shape → b < shapeSize vA.shape → (G a).dst = (G b).dst → a = b := by
+    intro a b ha hb hab
+    rw [hdst a, hdst b] at hab
+    have := KLoc.toLoc_inj calls _ _ hab
+    exact hinj a b ha hb (by simpa using this)
+  rw [solo_eq_execAll, hprog, ← hdst k]
+  rw [gather_solo _ G _ hGinj m k hkn]
+  obtain ⟨M, hM⟩ : ∃ M, M = execAll ((filterCopyRaw 1 vBc).map (fun r => (mkStep c r).compile calls) ++
+        (List.range k).map G) m := ⟨_, rfl⟩
+  -- the input array still holds the initial memory
+  have hread : ∀ l : KLoc, l.arr = aA → M (l.toLoc calls) = m (l.toLoc calls) := by
+    intro l hl
+    rw [hM]
+    apply execAll_frame
+    intro s hs
+    have hout : l.arr ∉ c.outputs := by simp [c, hl, hne1, hne2]
+    rcases List.mem_append.1 hs with h | h
+    · obtain ⟨r, _, rfl⟩ := List.mem_map.1 h
+      exact compiled_dst_ne calls c hcne r l hout
+    · obtain ⟨j, _, rfl⟩ := List.mem_map.1 h
+      exact compiled_dst_ne calls c hcne _ l hout
+  -- the result cell of pixel `k` has not been written yet: the filter copy writes `own 1`, earlier pixels other cells
+  have hreadO : M ((G k).dst) = 0 := by
+    rw [hM, execAll_frame, hdst k, hZ]
+    intro s hs
+    rcases List.mem_append.1 hs with h | h
+    · obtain ⟨r, hr, rfl⟩ := List.mem_map.1 h
+      have hro := filterCopy_rolesOk 1 vBc (2, 2) (by simp) (by simp) r hr
+      intro heq
+      rw [hdst k] at heq
+      have := congrArg KLoc.arr (KLoc.toLoc_inj calls _ _ heq)
+      simp only [filterCopyRaw, List.mem_map] at hr
+      obtain ⟨j, _, rfl⟩ := hr
+      simp [mkStep, Call.arrOf, c] at this
+      exact hne3 this.symm
+    · obtain ⟨j, hj, rfl⟩ := List.mem_map.1 h
+      intro heq
+      have hj' : j < k := List.mem_range.1 hj
+      have := hGinj j k (by omega) hkn heq
+      omega
+  rw [← hM]
+  have hsrcs : (G k).srcs.map M.get =
+      M ((G k).dst) :: A.getD (unravelI vA.shape k) 0 ::
+        nb.map (fun d => C01.readNearest A (addPos (unravelI vA.shape k) d)) := by
+    simp only [G, KStep.compile, mkStep, locPixel, List.map_cons, List.map_map]
+    congr 1
+    congr 1
+    · rw [show (c.arrOf (.inp 0)) = aA from rfl, hread ⟨aA, _⟩ rfl]
+      exact hC k hkn
+    · apply List.map_congr_left
+      intro d _
+      simp only [Function.comp]
+      have hfix := C01.fixPos_nearest vA.shape (addPos (unravelI vA.shape k) d) hpos
+      rw [show (c.arrOf (.inp 0)) = aA from rfl, hread ⟨aA, _⟩ rfl]
+      simp only [nbrAddr, hfix, Option.map_some, Option.getD_some]
+      rw [hA _ _ hfix]
+      unfold C01.readNearest
+      rw [hshape, hfix]
+  rw [hsrcs, hreadO]
+  have hop : (G k).op = locVal isMin := rfl
+  rw [hop]
+  simp only [locVal, C14.locAt, List.all_map, Function.comp_def]
+  rfl
 
 end Mahotas.C12
